@@ -29,6 +29,7 @@ import (
 	v1 "k8s.io/api/core/v1"
 	schedulingv1 "k8s.io/api/scheduling/v1"
 	metav1 "k8s.io/apimachinery/pkg/apis/meta/v1"
+	"k8s.io/apimachinery/pkg/apis/meta/v1/unstructured"
 	"k8s.io/apimachinery/pkg/runtime"
 	"k8s.io/apimachinery/pkg/types"
 	"k8s.io/client-go/tools/record"
@@ -49,7 +50,7 @@ import (
 )
 
 type step struct {
-	N string `json:"n"` // "Reconcile" | "Foreign"
+	N string `json:"n"` // "Reconcile" | "Foreign" | "Owner" (F: "l" label / "a" annotation)
 	P int    `json:"p"` // pod index (1-based) for Reconcile
 	G int    `json:"g"` // group index (1-based) for Foreign
 	F string `json:"f"` // queue | mark | backoff | nodepool
@@ -61,7 +62,13 @@ type schedule struct {
 	Skeleton int    `json:"skeleton"` // 1: always executed; 0: subject to -cap sampling
 }
 
-var fields = []string{"queue", "mark", "backoff", "nodepool"}
+var fields = []string{"queue", "mark", "backoff", "nodepool", "stamp"}
+
+const (
+	ownerLabelKey = "verif/owner-label"
+	ownerAnnKey   = "verif/owner-ann"
+	stampKey      = "kai.scheduler/last-start-timestamp" // written on the PodGroup by the scheduler
+)
 
 // setUnexported sets an unexported struct field (the reconciler's dependencies are normally
 // injected by SetupWithManager, which needs a live manager; nothing in /repo is changed).
@@ -90,7 +97,7 @@ type world struct {
 	r       *controllers.PodReconciler
 	hub     *pluginshub.DefaultPluginsHub
 	w       *workload
-	fcount  map[string]int // (group,field) -> number of foreign updates so far
+	fcount  map[string]int // (group,field) -> number of foreign updates so far; "owner/l", "owner/a"
 	gangKnt bool
 }
 
@@ -181,7 +188,7 @@ outer:
 
 func blankGroup() map[string]any {
 	return map[string]any{"ex": 0, "name": "", "min": 0, "prio": "", "preempt": "", "sub": "", "owner": "", "topo": "", "meta": "",
-		"queue": "", "mark": "", "backoff": "", "nodepool": ""}
+		"queue": "", "mark": "", "backoff": "", "nodepool": "", "stamp": "", "ol": "", "oa": ""}
 }
 
 func projectPG(pg *v2alpha2.PodGroup) map[string]any {
@@ -208,7 +215,8 @@ func projectPG(pg *v2alpha2.PodGroup) map[string]any {
 	return map[string]any{"ex": 1, "name": pg.Name, "min": int(pg.Spec.MinMember), "prio": pg.Spec.PriorityClassName,
 		"preempt": string(pg.Spec.Preemptibility), "sub": subString(pg.Spec.SubGroups), "owner": owner, "topo": topo,
 		"meta": "L{" + mapString(pg.Labels, nodePoolKey) + "}A{" + mapString(pg.Annotations) + "}",
-		"queue": pg.Spec.Queue, "mark": mark, "backoff": backoff, "nodepool": pg.Labels[nodePoolKey]}
+		"queue": pg.Spec.Queue, "mark": mark, "backoff": backoff, "nodepool": pg.Labels[nodePoolKey],
+		"stamp": pg.Annotations[stampKey], "ol": pg.Labels[ownerLabelKey], "oa": pg.Annotations[ownerAnnKey]}
 }
 
 // project: one record per expected group (the PodGroup carrying the expected name, if it exists),
@@ -290,6 +298,11 @@ func (wd *world) foreign(g int, f string) map[string]any {
 				pg.Labels = map[string]string{}
 			}
 			pg.Labels[nodePoolKey] = fmt.Sprintf("pool-f%d", k)
+		case "stamp":
+			if pg.Annotations == nil {
+				pg.Annotations = map[string]string{}
+			}
+			pg.Annotations[stampKey] = fmt.Sprintf("ts%d", k)
 		}
 		if err := wd.c.Update(ctx, &pg); err != nil {
 			errs = err.Error()
@@ -300,11 +313,62 @@ func (wd *world) foreign(g int, f string) map[string]any {
 		"wpg": 0, "wpod": 0, "wother": 0, "groups": groups, "pods": pods, "extra": extra}
 }
 
+// ownerChange: the user adds (first time) or changes a label / annotation on the object the PodGroups
+// inherit their metadata from. A legitimate external change of the workload.
+func (wd *world) ownerChange(kind string) map[string]any {
+	ctx := context.Background()
+	wd.fcount["owner/"+kind]++
+	k := wd.fcount["owner/"+kind]
+	errs := ""
+	if wd.w.meta == nil {
+		errs = "catalogue entry has no metadata owner"
+	} else {
+		cur := &unstructured.Unstructured{}
+		cur.SetGroupVersionKind(wd.w.meta.GroupVersionKind())
+		if err := wd.c.Get(ctx, types.NamespacedName{Namespace: ns, Name: wd.w.meta.GetName()}, cur); err != nil {
+			errs = err.Error()
+		} else {
+			if kind == "l" {
+				l := cur.GetLabels()
+				if l == nil {
+					l = map[string]string{}
+				}
+				l[ownerLabelKey] = fmt.Sprintf("v%d", k)
+				cur.SetLabels(l)
+			} else {
+				a := cur.GetAnnotations()
+				if a == nil {
+					a = map[string]string{}
+				}
+				a[ownerAnnKey] = fmt.Sprintf("v%d", k)
+				cur.SetAnnotations(a)
+			}
+			if err := wd.c.Update(ctx, cur); err != nil {
+				errs = err.Error()
+			}
+		}
+	}
+	groups, pods, extra := wd.project()
+	return map[string]any{"ev": "Owner", "p": 0, "g": 0, "f": kind, "k": k, "err": errs, "create": 0, "update": 0, "patch": 0, "delete": 0, "empty": 0,
+		"wpg": 0, "wpod": 0, "wother": 0, "groups": groups, "pods": pods, "extra": extra}
+}
+
+func hasOwnerStep(steps []step) bool {
+	for _, s := range steps {
+		if s.N == "Owner" {
+			return true
+		}
+	}
+	return false
+}
+
 func schedString(steps []step) string {
 	parts := []string{}
 	for _, s := range steps {
 		if s.N == "Reconcile" {
 			parts = append(parts, fmt.Sprintf("R%d", s.P))
+		} else if s.N == "Owner" {
+			parts = append(parts, "O"+s.F)
 		} else {
 			parts = append(parts, fmt.Sprintf("F%d%s", s.G, s.F))
 		}
@@ -325,11 +389,17 @@ func runOne(out emitter, scheme *runtime.Scheme, e entry, n int, labelled bool, 
 	if labelled {
 		lab = 1
 	}
-	out.Emit(map[string]any{"ev": "Scenario", "id": id, "class": e.id, "kind": e.id, "n": n, "labelled": lab, "grp": w.groupOf, "exp": w.exp, "expsub": w.expSub,
+	own := 0
+	if w.meta != nil {
+		own = 1
+	}
+	out.Emit(map[string]any{"ev": "Scenario", "id": id, "class": e.id, "kind": e.id, "n": n, "labelled": lab, "owner": own, "grp": w.groupOf, "exp": w.exp, "expsub": w.expSub,
 		"sched": schedString(steps)})
 	for _, s := range steps {
 		if s.N == "Reconcile" {
 			out.Emit(wd.reconcile(s.P))
+		} else if s.N == "Owner" {
+			out.Emit(wd.ownerChange(s.F))
 		} else {
 			out.Emit(wd.foreign(s.G, s.F))
 		}
@@ -338,7 +408,8 @@ func runOne(out emitter, scheme *runtime.Scheme, e entry, n int, labelled bool, 
 
 func shapeKey(s []int) string { return fmt.Sprint(s) }
 
-func randomSchedule(r *rand.Rand, shape []int, length, maxForeign int) []step {
+func randomSchedule(r *rand.Rand, shape []int, length, maxForeign int, withOwner bool) []step {
+	nOwner := 0
 	ng := 0
 	for _, g := range shape {
 		if g > ng {
@@ -363,6 +434,11 @@ func randomSchedule(r *rand.Rand, shape []int, length, maxForeign int) []step {
 			perField[fmt.Sprint(g, f)]++
 			steps = append(steps, step{N: "Foreign", G: g, F: f})
 			nf++
+			continue
+		}
+		if withOwner && nOwner < 2 && r.Intn(6) == 0 {
+			nOwner++
+			steps = append(steps, step{N: "Owner", F: []string{"l", "a"}[r.Intn(2)]})
 			continue
 		}
 		p := 1 + r.Intn(len(shape))
@@ -440,6 +516,8 @@ func main() {
 				var p int
 				fmt.Sscan(tok[1:], &p)
 				steps = append(steps, step{N: "Reconcile", P: p})
+			} else if tok[0] == 'O' {
+				steps = append(steps, step{N: "Owner", F: tok[1:]})
 			} else {
 				var g int
 				fmt.Sscan(tok[1:2], &g)
@@ -500,9 +578,19 @@ func main() {
 				if *labelledMode != 2 && *labelledMode != lab {
 					continue
 				}
-				shape := e.build(n, lab == 1).groupOf
-				scheds := byShape[shapeKey(shape)]
+				wl := e.build(n, lab == 1)
+				shape := wl.groupOf
+				withOwner := wl.meta != nil
+				scheds := [][]step{}
+				for _, st := range byShape[shapeKey(shape)] {
+					if withOwner || !hasOwnerStep(st) {
+						scheds = append(scheds, st)
+					}
+				}
 				for i, st := range mustShape[shapeKey(shape)] {
+					if !withOwner && hasOwnerStep(st) {
+						continue
+					}
 					jobs = append(jobs, &job{e: e, n: n, lab: lab == 1, steps: st, id: fmt.Sprintf("%s/n%d/l%d/k%d", e.id, n, lab, i)})
 				}
 				if *schedFile != "" && len(scheds) == 0 && len(mustShape[shapeKey(shape)]) == 0 {
@@ -517,7 +605,7 @@ func main() {
 					jobs = append(jobs, &job{e: e, n: n, lab: lab == 1, steps: scheds[i], id: fmt.Sprintf("%s/n%d/l%d/s%d", e.id, n, lab, i)})
 				}
 				for i := 0; i < *random; i++ {
-					jobs = append(jobs, &job{e: e, n: n, lab: lab == 1, steps: randomSchedule(r, shape, *rlen, 3), id: fmt.Sprintf("%s/n%d/l%d/r%d-%d", e.id, n, lab, *seed, i)})
+					jobs = append(jobs, &job{e: e, n: n, lab: lab == 1, steps: randomSchedule(r, shape, *rlen, 3, withOwner), id: fmt.Sprintf("%s/n%d/l%d/r%d-%d", e.id, n, lab, *seed, i)})
 				}
 				shapesSeen[shapeKey(shape)]++
 			}
